@@ -242,6 +242,20 @@ def enabled_ops(live, b):
         for i in internal:
             ops.append(("insert_new_child", i, 0))
             ops.append(("add_child_new", i))
+    # calls the library documents as refused: they must raise the documented error and leave the tree well formed
+    for p in internal:
+        kids = set(id(c) for c in nodes[p]._child_nodes)
+        for i in nonseed:
+            if i != p and id(nodes[i]) not in kids:
+                ops.append(("refused:remove_child(not-a-child)", p, i))
+    if internal:
+        ops.append(("refused:remove_child(None)", internal[0]))
+    ops.append(("refused:prune_subtree(seed)",))
+    ops.append(("refused:prune_subtree(None)",))
+    if leaf_labels:
+        for ub, su in FLAGS2:
+            ops.append(("refused:prune_taxa(all)", ub, su))
+            ops.append(("refused:retain_taxa(none)", ub, su))
     # move a subtree: remove_child then add_child elsewhere
     for i in nonseed:
         sub = set()
@@ -354,6 +368,20 @@ def apply_op(live, op):
     elif name == "remove_child":
         removed = below(nodes[op[2]])
         nodes[op[1]].remove_child(nodes[op[2]], suppress_unifurcations=op[3])
+    elif name == "refused:remove_child(not-a-child)":
+        nodes[op[1]].remove_child(nodes[op[2]])
+    elif name == "refused:remove_child(None)":
+        nodes[op[1]].remove_child(None)
+    elif name == "refused:prune_subtree(seed)":
+        t.prune_subtree(t._seed_node)
+    elif name == "refused:prune_subtree(None)":
+        t.prune_subtree(None)
+    elif name == "refused:prune_taxa(all)":
+        removed = None
+        t.prune_taxa(list(ns._taxa), update_bipartitions=op[1], suppress_unifurcations=op[2])
+    elif name == "refused:retain_taxa(none)":
+        removed = None
+        t.retain_taxa([], update_bipartitions=op[1], suppress_unifurcations=op[2])
     elif name in ("new_child", "insert_new_child", "add_child_new"):
         used = set(x._label for x in ns._taxa)
         lab = [l for l in NEW_LABELS + ["w%d" % k for k in range(20)] if l not in used][0]
@@ -401,6 +429,12 @@ def flagsig(op):
 
 DOCUMENTED_REFUSALS = {
     "filter_leaf_nodes": (dperror.SeedNodeDeletionException,),
+    "refused:remove_child(not-a-child)": (ValueError,),
+    "refused:remove_child(None)": (ValueError,),
+    "refused:prune_subtree(seed)": (TypeError,),
+    "refused:prune_subtree(None)": (ValueError,),
+    "refused:prune_taxa(all)": (dperror.SeedNodeDeletionException,),
+    "refused:retain_taxa(none)": (dperror.SeedNodeDeletionException,),
 }
 
 
@@ -433,7 +467,7 @@ def step(h, op, ctx, b):
         return None
     if exc is not None:
         doc = DOCUMENTED_REFUSALS.get(name, ())
-        if not (isinstance(exc, doc) and op[1] is None):
+        if not (isinstance(exc, doc) and (name.startswith("refused:") or op[1] is None)):
             ctx.violation("%s|exception|%s" % (name, type(exc).__name__),
                           "%r raised %s: %s" % (op, type(exc).__name__, str(exc)[:200]), case)
         else:
@@ -456,6 +490,10 @@ def step(h, op, ctx, b):
             return None
         if ub and before_enc == "current":
             ctx.count("update_contract_checked")
+    if name.startswith("refused:"):
+        # the state a refused call leaves behind is checked above (well formed, traversable); it is not expanded further
+        ctx.count("refused_calls_checked" if exc is not None else "refused_calls_that_completed")
+        return None
     return (live.key(), (h[0], tuple(h[1]) + (op,)))
 
 
